@@ -69,7 +69,44 @@ def make_job(ws: Path, j):
     return d
 
 
-def make_ws(ws: Path, w):
+class Access:
+    """the path the command is given for the workspace: the folder itself, a symbolic link to it, a path through `..`,
+    or a path relative to the current directory"""
+
+    def __init__(self, ws: Path, kind: str):
+        self.ws, self.kind, self.cwd = ws, kind or "direct", None
+        self.link = ws.parent / (ws.name + "-link")
+
+    def path(self) -> Path:
+        if self.kind == "symlink":
+            return self.link
+        if self.kind == "dotdot":
+            return self.ws / "jobs" / ".." / ".." / self.ws.name
+        if self.kind == "relative":
+            return Path(self.ws.name)
+        return self.ws
+
+    def absolute(self) -> Path:
+        return self.ws if self.kind == "relative" else self.path()
+
+    def __enter__(self):
+        if self.kind == "symlink":
+            os.symlink(self.ws, self.link)
+        if self.kind == "relative":
+            self.cwd = os.getcwd()
+            os.chdir(self.ws.parent)
+        return self
+
+    def __exit__(self, *a):
+        if self.cwd is not None:
+            os.chdir(self.cwd)
+        if self.kind == "symlink" and self.link.is_symlink():
+            self.link.unlink()
+
+
+def make_ws(ws: Path, w, base: Path = None):
+    """base: the path of the workspace as the experiment that wrote the index saw it (index entries are absolute links)"""
+    base = base or ws
     ws.mkdir(parents=True)
     (ws / ".__experimaestro__").touch()
     (ws / "jobs").mkdir()
@@ -91,7 +128,7 @@ def make_ws(ws: Path, w):
             for t, h in keys:
                 (xd / sub / t).mkdir(exist_ok=True)
                 # as the scheduler does: an absolute link to the job directory (dangling if absent)
-                os.symlink(ws / "jobs" / t / h, xd / sub / t / h)
+                os.symlink(base / "jobs" / t / h, xd / sub / t / h)
 
 
 def snapshot(ws: Path):
@@ -194,14 +231,16 @@ def atom_verdicts(ws: Path, c):
 
 
 def run_clean(ws: Path, c):
-    make_ws(ws, c["ws"])
-    return run_clean_on(ws, c)
+    acc = Access(ws, c.get("access"))
+    make_ws(ws, c["ws"], acc.absolute() if c.get("index_via") == "access" else ws)
+    with acc:
+        return run_clean_on(ws, c, acc.path())
 
 
-def run_clean_on(ws: Path, c):
+def run_clean_on(ws: Path, c, given: Path = None):
     atoms = atom_verdicts(ws, c)
     before, jb = snapshot(ws), jobdirs(ws)
-    args = ["jobs", "--workdir", str(ws), "clean"]
+    args = ["jobs", "--workdir", str(given or ws), "clean"]
     if c["experiment"] is not None:
         args += ["--experiment", c["experiment"]]
     if c["filter"] is not None:
@@ -218,7 +257,13 @@ def run_clean_on(ws: Path, c):
 
 
 def run_orphans(ws: Path, c):
-    make_ws(ws, c["ws"])
+    acc = Access(ws, c.get("access"))
+    make_ws(ws, c["ws"], acc.absolute() if c.get("index_via") == "access" else ws)
+    with acc:
+        return run_orphans_on(ws, c, acc.path())
+
+
+def run_orphans_on(ws: Path, c, given: Path):
     before, jb = snapshot(ws), jobdirs(ws)
     args = ["orphans"]
     if c["clean"]:
@@ -227,7 +272,7 @@ def run_orphans(ws: Path, c):
         args.append("--ignore-old")
     if c.get("show_all"):
         args.append("--show-all")
-    args.append(str(ws))
+    args.append(str(given))
     r = CliRunner().invoke(cli, args)
     out = diff(ws, before, jb)
     out["exc"] = excname(r)
